@@ -2,11 +2,33 @@ package main
 
 import (
 	"fmt"
+	"os"
 
 	"verifmc/scen"
 )
 
+// scratch debugging entry point: dbg net <action>... replays a history in the C02 network world, printing
+// the enabled actions after every step and the final-phase verdict.
 func main() {
+	if len(os.Args) > 1 && os.Args[1] == "net" {
+		scen.DebugNet(os.Args[2:])
+		return
+	}
+	if len(os.Args) > 1 && os.Args[1] == "fgdfs" {
+		scen.DebugFetchGatedDFS()
+		return
+	}
+	if len(os.Args) > 1 && os.Args[1] == "fg" {
+		scen.DebugFetchGated(func(en []string) int {
+			for i, a := range en {
+				if len(a) > 8 && a[:8] == "exchange" {
+					return i
+				}
+			}
+			return 0
+		})
+		return
+	}
 	out, vs := scen.RunPubSubRawDebug()
 	fmt.Println(out, len(vs))
 	for _, v := range vs {
